@@ -124,7 +124,13 @@ class Sched(object):
         elif e == EV_KILLCMD:
             req = w.send('kill', name=name, waiting=waiting)
         elif e == EV_SIGNALCMD:
-            req = w.send('signal', name=name, signum=10)
+            # param: 0 plain, 1 recursive, 2 children, 3 = one worker (first live pid) recursively
+            extra = ({}, {'recursive': True}, {'children': True}, {'recursive': True})[p % 4]
+            if p % 4 == 3:
+                alive = k.alive_pids(name)
+                if alive:
+                    extra = dict(extra, pid=alive[0])
+            req = w.send('signal', name=name, signum=10, **extra)
         elif e == EV_KILL0:
             req = w.send('kill', name=name, waiting=waiting, graceful_timeout=0)
         elif e == EV_INCR_BIG:
